@@ -336,13 +336,22 @@ impl HelperDef for LocalHelper {
         &self,
         h: &Helper<'rc>,
         r: &'reg Handlebars<'reg>,
-        _ctx: &'rc Context,
+        ctx: &'rc Context,
         rc: &mut RenderContext<'reg, 'rc>,
         out: &mut dyn Output,
     ) -> HelperResult {
         let s = format!("local({}:{})", self.registered_name, pj_list(h.params()));
         log_line(&s);
-        if self.registered_name.starts_with("f:") {
+        if self.registered_name.starts_with("c:") {
+            // a tag beginning with "c:" makes the local helper capture its block body with
+            // `Renderable::renders` and write the captured text between angle brackets
+            if let Some(t) = h.template() {
+                let body = handlebars::Renderable::renders(t, r, ctx, rc)?;
+                out.write("<")?;
+                out.write(&body)?;
+                out.write(">")?;
+            }
+        } else if self.registered_name.starts_with("f:") {
             // a tag beginning with "f:" makes the local helper write a fixed literal through `write!`
             // without format arguments (`Output::write_fmt`)
             write!(out, "literal-0123456789")?;
